@@ -23,6 +23,7 @@ struct State {
   long calls = 0;          // allocation calls seen while armed (malloc/calloc/realloc with size > 0)
   long fail_at = -1;       // fail the call with this 1-based index ...
   bool persistent = false; // ... and every later one
+  long fail_count = 1;     // (not persistent) ... and the fail_count - 1 calls after it
   long failures = 0;
   long live_at_first_failure = -1;
   // live set (open addressing would be faster; sizes here are tiny)
@@ -52,11 +53,17 @@ inline void reset() {
   s.calls = 0;
   s.fail_at = -1;
   s.persistent = false;
+  s.fail_count = 1;
   s.failures = 0;
   s.live_at_first_failure = -1;
   s.nlive = 0;
   s.on_free = nullptr;
   s.on_free_all = nullptr;
+}
+// every failure that was ordered has been delivered and the allocator works again (never true in persistent mode)
+inline bool recovered() {
+  State &s = S();
+  return !s.persistent && s.fail_at > 0 && s.calls >= s.fail_at + s.fail_count - 1;
 }
 inline size_t live_count() { return S().nlive; }
 inline size_t live_bytes() {
@@ -95,7 +102,7 @@ static long aw_find(void *p) {
 static bool aw_should_fail() {
   aw::State &s = aw::S();
   s.calls++;
-  if (s.fail_at > 0 && (s.calls == s.fail_at || (s.persistent && s.calls > s.fail_at))) {
+  if (s.fail_at > 0 && ((s.calls >= s.fail_at && s.calls < s.fail_at + s.fail_count) || (s.persistent && s.calls > s.fail_at))) {
     if (s.failures == 0) s.live_at_first_failure = (long)s.nlive;
     s.failures++;
     errno = ENOMEM;
